@@ -178,6 +178,55 @@ Lemma tie_writer_compress_block : TIE_writer_compress_block =
    (0, "b->crc=htole32(mtbl_crc32c(b->data,b->len_data))")].
 Proof. reflexivity. Qed.
 
+(* mtbl/block_builder.c: block_builder_init *)
+Lemma tie_bb_block_builder_init : TIE_bb_block_builder_init =
+  [(0, "structblock_builder*b");
+   (0, "b=my_calloc(1,sizeof(*b))");
+   (0, "b->block_restart_interval=block_restart_interval");
+   (0, "b->buf=ubuf_init(65536)");
+   (0, "b->last_key=ubuf_init(256)");
+   (0, "b->restarts=uint64_vec_init(64)");
+   (0, "uint64_vec_add(b->restarts,0)");
+   (0, "return(b)")].
+Proof. reflexivity. Qed.
+
+(* mtbl/block_builder.c: block_builder_destroy *)
+Lemma tie_bb_block_builder_destroy : TIE_bb_block_builder_destroy =
+  [(0, "if(*b)");
+   (1, "uint64_vec_destroy(&((*b)->restarts))");
+   (1, "ubuf_destroy(&((*b)->buf))");
+   (1, "ubuf_destroy(&((*b)->last_key))");
+   (1, "free((*b))");
+   (1, "*b=NULL")].
+Proof. reflexivity. Qed.
+
+(* mtbl/block_builder.c: block_builder_reset *)
+Lemma tie_bb_block_builder_reset : TIE_bb_block_builder_reset =
+  [(0, "ubuf_reset(b->buf)");
+   (0, "ubuf_reset(b->last_key)");
+   (0, "uint64_vec_reset(b->restarts)");
+   (0, "uint64_vec_add(b->restarts,0)");
+   (0, "b->counter=0");
+   (0, "b->finished=false")].
+Proof. reflexivity. Qed.
+
+(* mtbl/block_builder.c: block_builder_empty *)
+Lemma tie_bb_block_builder_empty : TIE_bb_block_builder_empty =
+  [(0, "return(ubuf_size(b->buf)==0)")].
+Proof. reflexivity. Qed.
+
+(* mtbl/writer.c: _mtbl_writer_write_block *)
+Lemma tie_wr_mtbl_writer_write_block : TIE_wr_mtbl_writer_write_block =
+  [(0, "uint8_tlen[10]");
+   (0, "size_tlen_length,bytes_written");
+   (0, "len_length=mtbl_varint_encode64(len,b->len_data)");
+   (0, "_write_all(fd,(constuint8_t*)len,len_length)");
+   (0, "_write_all(fd,(constuint8_t*)&b->crc,sizeof(b->crc))");
+   (0, "_write_all(fd,b->data,b->len_data)");
+   (0, "bytes_written=len_length+sizeof(b->crc)+b->len_data");
+   (0, "return(bytes_written)")].
+Proof. reflexivity. Qed.
+
 (* libmy/vector.h: whole file *)
 Lemma tie_vector_h : TIE_vector_h =
   [(0, "#include<assert.h>");
